@@ -310,6 +310,9 @@ type world struct {
 	stepAt  []int64 // sim time at which each scenario step was applied
 	stepEnd []int64
 	loadErr string
+	notify     chan struct{}
+	appLogged  int
+	rpcLogged  int
 	leaveAt    map[[2]int]int64 // (observer, dead) -> time the observer was told
 	lateGossip map[[2]int]bool  // (observer, dead): a datagram sent by dead reached observer after that
 }
@@ -539,7 +542,7 @@ func (s seededReader) Read(p []byte) (int, error) {
 func newWorld(t *testing.T, c *Case, o *Outcome) *world {
 	w := &world{t: t, c: c, o: o, start: time.Now(), clients: map[int]*simClient{}, conns: map[[2]int]*grpc.ClientConn{},
 		blocked: map[[2]int]bool{}, rpcMode: map[[2]int]string{}, rpcN: map[[2]int]int{}, gossipN: map[[2]int]int{},
-		seed: c.Seed, stats: map[string]int64{}, leaveAt: map[[2]int]int64{}, lateGossip: map[[2]int]bool{}}
+		seed: c.Seed, stats: map[string]int64{}, leaveAt: map[[2]int]int64{}, lateGossip: map[[2]int]bool{}, notify: make(chan struct{}, 1)}
 	base := os.Getenv("VERIF_DATA")
 	if base == "" {
 		base = os.TempDir()
@@ -665,10 +668,36 @@ func (w *world) run(hooks profileHooks) {
 		if nEvents > 200000 {
 			panic("harness: event cap exceeded")
 		}
-		if now := w.nowMs(); e.at > now {
-			time.Sleep(time.Duration(e.at-now) * time.Millisecond)
+		// sleep until the event is due, waking up whenever a broker writes to (or closes) a
+		// client connection so that clients react at the simulated instant they would, and at
+		// least every 500 ms to notice broker-internal activity without client traffic
+		requeued := false
+		for now := w.nowMs(); e.at > now; now = w.nowMs() {
+			d := e.at - now
+			if d > 500 {
+				d = 500
+			}
+			tm := time.NewTimer(time.Duration(d) * time.Millisecond)
+			select {
+			case <-tm.C:
+			case <-w.notify:
+				tm.Stop()
+			}
 			synctest.Wait()
 			w.collect()
+			if w.events.Len() > 0 && w.events[0].at < e.at {
+				heap.Push(&w.events, e) // keeps its sequence number
+				requeued = true
+				break
+			}
+		}
+		if requeued {
+			nEvents--
+			continue
+		}
+		select {
+		case <-w.notify:
+		default:
 		}
 		w.apply(e)
 		synctest.Wait()
@@ -771,7 +800,7 @@ func (w *world) applyStep(e *event, s *Step) {
 			cl.opts.WillTopic, cl.opts.WillPayload = s.L[0], s.L[1]
 		}
 		cl.mount = w.mountOf(s.U, s.T)
-		cl.conn = newSimConn(&w.stamp, w.start)
+		cl.conn = newSimConn(&w.stamp, w.start, w.notify)
 		cl.connectAt = w.nowMs()
 		w.clients[s.C] = cl
 		n := w.nodes[s.N]
@@ -901,7 +930,7 @@ func (w *world) mountOf(user, pass string) string {
 
 func (w *world) live(c int) *simClient {
 	cl := w.clients[c]
-	if cl == nil || cl.downAt >= 0 {
+	if cl == nil || cl.downAt >= 0 || cl.sawClose {
 		return nil
 	}
 	return cl
@@ -970,6 +999,25 @@ func (w *world) collect() {
 		}
 	}
 	_ = now
+	w.mu.Lock()
+	var alines []string
+	for _, a := range w.appends[w.appLogged:] {
+		res := "ok"
+		if a.Err {
+			res = "ERR"
+		}
+		alines = append(alines, fmt.Sprintf("n%d:%s:%s", a.Node, a.Tag, res))
+	}
+	w.appLogged = len(w.appends)
+	for _, rp := range w.rpcs[w.rpcLogged:] {
+		alines = append(alines, fmt.Sprintf("rpc%d>%d:%s:%s", rp.Src, rp.Dst, rp.Tag, rp.Outcome))
+	}
+	w.rpcLogged = len(w.rpcs)
+	w.mu.Unlock()
+	if len(alines) > 0 {
+		sort.Strings(alines)
+		w.logf("log %s", strings.Join(alines, " "))
+	}
 	// gossip: schedule a tick for every node that has something queued
 	for _, n := range w.nodes {
 		if n.alive && !n.tickPending && n.bcast.NumQueued() > 0 {
